@@ -44,7 +44,8 @@ DEVIATIONS = (("DevStale", "FmtMol2", 2, 1, "StylesQ"), ("DevRepeat", "FmtMol2",
               ("DevNoCount", "FmtMol2", 1, 1, "StylesQ"), ("DevAsFound", "FmtMol2", 2, 2, "StylesQ"),
               ("DevSpin", "FmtMol2", 1, 1, "StylesQ"), ("DevXyzCount", "FmtXyz", 1, 1, "StylesQ"),
               ("DevXyzEof", "FmtXyz", 1, 1, "StylesQ"), ("DevCut", "FmtBoth", 1, 1, "StylesQ"),
-              ("DevOptCut", "FmtMol2", 1, 1, "StylesUnity"), ("DevNoQ", "FmtMol2", 1, 1, "StylesQ"))
+              ("DevOptCut", "FmtMol2", 1, 1, "StylesUnity"), ("DevNoQ", "FmtMol2", 1, 1, "StylesQ"),
+              ("DevSlot", "FmtMol2", 1, 2, "StylesQ"), ("DevWrap", "FmtMol2", 1, 2, "StylesQ"))
 TRACE_CFG = dict(spec="TraceSpec", constants={"Deviations": "<- DevNone", "Src": "<- TraceSrc"})
 
 
@@ -127,6 +128,11 @@ def mc_family(edges):
                     rec = [["set", i, "@<TRIPOS>" + lx["t"] + "X"]]
                 elif v == "noq":
                     rec = [["trunc", i, 6]]
+                elif v in ("n+1", "n-1"):
+                    rec = [["tok", i, 0, str(int(toks[0]) + (1 if v == "n+1" else -1))]]
+                elif v in ("a1-1", "a2+1"):
+                    j = 1 if v == "a1-1" else 2
+                    rec = [["tok", i, j, str(int(toks[j]) + (-1 if v == "a1-1" else 1))]]
                 elif v in ("na+1", "na-1", "nb+1", "nb-1"):
                     j = 0 if v[:2] == "na" else 1
                     rec = [["tok", i, j, str(lx["c"][j] + (1 if v[2] == "+" else -1))]]
@@ -134,10 +140,19 @@ def mc_family(edges):
                     raise tlc.MachineryError(f"unknown damage variant from the spec: {v}")
                 _, ops = dm.apply(rec)
                 want, got = e["line"], ops[-1]["line"]
-                same = {"junk": got["k"] == "text" or got.get("ok") is False,
-                        "noq": got["k"] == "atom" and got["ok"] and not got["hq"],
-                        "other": got["k"] == "tag" and want["k"] == "tag" and got["t"] not in ("MOLECULE", "ATOM", "BOND")
-                        }.get(v, got["k"] == "ints" and got.get("c") == want.get("c"))
+                k = got["k"]
+                if v == "junk":
+                    same = k == "text" or got.get("ok") is False
+                elif v == "noq":
+                    same = k == "atom" and got["ok"] and not got["hq"]
+                elif v == "other":
+                    same = k == "tag" and want["k"] == "tag" and got["t"] not in ("MOLECULE", "ATOM", "BOND")
+                elif v in ("n+1", "n-1", "a1-1", "a2+1"):
+                    view = lambda x: ((x["n"], x.get("a1"), x.get("a2")) if x["k"] in ("atom", "bond") else
+                                      tuple(x["c"][:3]) if x["k"] == "ints" and 4 <= x["nt"] <= 6 else None)
+                    same = view(got) is not None and view(got) == (want["n"], want.get("a1"), want.get("a2"))
+                else:
+                    same = k == "ints" and got.get("c") == want.get("c")
                 if not same:
                     raise tlc.MachineryError(f"rendering disagrees with the spec's damaged line: {sid} {rec} {got} {want}")
             src["recipes"].append(rec)
@@ -236,7 +251,8 @@ def wellformed_pass(cands):
     traces = []
     for i, k in enumerate(keys):
         o = res[i]
-        if o["out"] == "ret" and o["mols"]:
+        blank = any(not isinstance(a.get(f), int) for m in o["mols"] for a in m.get("atoms", ()) for f in ("x", "y", "z", "q"))
+        if o["out"] == "ret" and o["mols"] and not blank:      # (an atom without coordinates: certainly not a reading of the text)
             traces.append({"tid": f"W{i}", "ev": [{"ev": "good", "fmt": cands[k][0], "cls": cands[k][2],
                                                    "lines": X.lex_text(cands[k][0], cands[k][1]), "out": "ret", "mols": o["mols"]}]})
     if not traces:
@@ -394,9 +410,17 @@ def unit_plan(src, cls, tier, rnd):
         pick |= set(rnd.sample(rest, max(0, min(len(rest), nrec - len(pick)))))
         rl = sorted(pick)
     out += [(r, prim) for r in dm.token_level(rl)]
+    # a token replaced by another valid value of its column (serial numbers, substructure ids, endpoints at the border)
+    bb = dm.border_bonds()
+    vl = sorted(set(rl) | set(bb if tier == "thorough" or len(bb) <= 4 else rnd.sample(bb, 4)))
+    valid = dm.valid_other(vl, rnd)
+    out += [(r, prim) for r in valid]
+    if cls != "Molecule" and not (tier == "thorough" and n <= 400):
+        out += [(r, prim) for r in dm.count_changes()]
     # every other entry point of the class: the undamaged text, a few text damages, byte-level damage of the FILE
     vias = [v for v in R.VIAS[cls] if v != prim]
-    few = (rnd.sample(dm.line_cuts(), min(2, n)) + rnd.sample(dm.token_level(rl[:1] + rl[-1:], cutmid=False), 2)) if n <= 3000 else []
+    few = (rnd.sample(dm.line_cuts(), min(2, n)) + rnd.sample(dm.token_level(rl[:1] + rl[-1:], cutmid=False), 2)
+           + rnd.sample(valid, min(3, len(valid)))) if n <= 3000 else []
     nb = (3 if tier == "quick" else 12) if n <= 3000 else 1
     byte = dm.byte_level(nb, rnd)
     for v in vias:
